@@ -44,7 +44,10 @@ def history(rng, d, icvn):
                 scns = [scns[0]] * 4          # every set of the group re-uses one control number (sets merged from several files)
             ns = rng.randint(0, 3)
             for s in range(ns):
-                h.append(docgen.seg(d, 'ST', '837', '%04d' % scns[s]))
+                if rng.random() < 0.06:
+                    h.append(docgen.seg(d, 'ST', '837'))          # a set header without a control number: closed by a trailer without one
+                else:
+                    h.append(docgen.seg(d, 'ST', '837', '%04d' % scns[s]))
                 for _ in range(rng.randint(0, 4)):
                     if rng.random() < 0.12:
                         # a segment that carries no data at all (bare id, or separators only): still a segment, written and counted
@@ -76,9 +79,10 @@ def has_reused_ids(h, ds):
             seen_gs.add(p[6])
             seen_st = set()
         elif p[0] == 'ST':
-            if p[2] in seen_st:
+            st2 = p[2] if len(p) > 2 else None
+            if st2 in seen_st:
                 return True
-            seen_st.add(p[2])
+            seen_st.add(st2)
     return False
 
 
